@@ -388,13 +388,23 @@ class Unit:
         if renames:
             region = apply_renames(region, renames)
             segs, base, rewrites = parse_region(region, where)
-        merged, changes = merge(segs, base, stoks, where)
+        conflict = None
+        try:
+            merged, changes = merge(segs, base, stoks, where)
+        except ExtractError as ex:
+            # The changed source cannot be merged into this region (edit inside a rewritten span / across an anchor).
+            # Keep the REGISTERED copy of this one item in the generated file (its contract is what callers see; its
+            # body is the old one and is not a statement about the current source), flag the item as `conflict`, and go
+            # on: every other item of the root is still extracted from the current source and verified.
+            conflict = str(ex)
+            merged, changes = None, [{"op": "conflict", "was": "", "now": conflict}]
         if renames:
             changes = [{"op": "rename", "was": a, "now": b} for a, b in sorted(renames.items())] + changes
             if merged is None:
                 merged = region
         out = region if merged is None else merged
-        roundtrip(out, stoks, where)
+        if conflict is None:
+            roundtrip(out, stoks, where)
         n_ins = sum(1 for x in segs if x.prov == "ins")
         final, n_probe = emit_region(out, self.probe and probe_ok)
         gen_first = len(self.lines) + 1
@@ -409,7 +419,7 @@ class Unit:
             "item": "%s :: %s" % (srcfile, ipath), "src_file": srcfile, "src_lines": [first_line, last_line],
             "sha256": hashlib.sha256(slice_text.encode()).hexdigest(),
             "src_tokens": len(stoks), "annotation_tokens": n_ins,
-            "rewrites": rewrites, "status": "identical" if merged is None else "merged",
+            "rewrites": rewrites, "status": "conflict" if conflict else ("identical" if merged is None else "merged"), "conflict": conflict,
             "source_changes": changes, "gen_lines": [gen_first, gen_last], "unit_file": unitfile,
             "fn": fn_name, "probes": n_probe, "module": self.module,
             "kind": ("fn" if body_at is not None else "fn_decl") if fn_name else "type",
